@@ -74,13 +74,13 @@ def run(chk: core.Check):
     quick = chk.tier == "quick"
     shape = [4, 4, 5]
     res = tlc.run_wrapped("MC_TimeSteppers", {"Shape": shape, "ThirdStageHalf": False},
-                          "SPECIFICATION Spec\nINVARIANT SspIsPoly\nINVARIANT EulerLinearInStep\n",
+                          "SPECIFICATION Spec\nINVARIANT SspIsPoly\nINVARIANT EulerLinearInStep\nCHECK_DEADLOCK FALSE\n",
                           raw={"UPatterns": UPS_Q if quick else UPS}, timeout=1500)
     chk.add_tlc("MC_TimeSteppers nominal", res)
-    res = tlc.run_wrapped("MC_TimeSteppers", {"Shape": shape, "ThirdStageHalf": True}, "SPECIFICATION Spec\nINVARIANT SspIsPoly\n",
+    res = tlc.run_wrapped("MC_TimeSteppers", {"Shape": shape, "ThirdStageHalf": True}, "SPECIFICATION Spec\nINVARIANT SspIsPoly\nCHECK_DEADLOCK FALSE\n",
                           raw={"UPatterns": UPS_Q}, timeout=600)
     chk.add_tlc("control third stage half step", res, expect_violation="SspIsPoly")
-    res = tlc.run_wrapped("MC_TimeSteppers", {"Shape": shape, "ThirdStageHalf": False}, "SPECIFICATION Spec\nINVARIANT CubicVanishes\n",
+    res = tlc.run_wrapped("MC_TimeSteppers", {"Shape": shape, "ThirdStageHalf": False}, "SPECIFICATION Spec\nINVARIANT CubicVanishes\nCHECK_DEADLOCK FALSE\n",
                           raw={"UPatterns": UPS_Q}, timeout=600)
     chk.add_tlc("control cubic term matters", res, expect_violation="CubicVanishes")
     # ---- replay of the time-step operations ---------------------------------------------------
